@@ -156,12 +156,12 @@ theorem findQuote_ni (qre : Pat) (text : Str) : ∀ fuel i, NI (findQuote qre te
   | zero => intro i; unfold findQuote; ni_go
   | succ n ih => intro i; unfold findQuote; ni_go
 
-theorem fragQuoteLoop_ni (defs : List QuoteDef) : ∀ fuel text, NI (fragQuoteLoop defs fuel text) := by
+theorem fragQuoteLoop_ni (defs : List QuoteDef) : ∀ fuel depth text, NI (fragQuoteLoop defs fuel depth text) := by
   intro fuel
   induction fuel with
-  | zero => intro text; unfold fragQuoteLoop; ni_go
+  | zero => intro depth text; unfold fragQuoteLoop; ni_go
   | succ n ih =>
-    intro text
+    intro depth text
     have hf := findQuote_ni (quotesRe defs) text
     unfold fragQuoteLoop; ni_go
 
